@@ -82,6 +82,8 @@ class SimFS:
         self.fds = {}
         self._next_fd = FD_BASE
         self.open_files = []  # every OpenFile ever handed out and not yet closed
+        self.sendfile_cap = None  # most bytes one sendfile() call moves in this run (None: whatever is asked for)
+        self.sendfile_calls = 0
         self.fd_limit = None  # RLIMIT_NOFILE of the simulated process (descriptors + open file objects)
         self.other_device_prefix = None  # e.g. /SIMFS/tmp when the temp directory is another file system
         self.unlink_log = []  # (path, ino, atime, mtime, size) for every unlink/replace victim
@@ -617,6 +619,32 @@ class SimFS:
 
     def os_write(self, fd, b):
         return self._write(self._fd(fd), bytes(b))
+
+    def os_sendfile(self, out_fd, in_fd, offset, count):
+        """sendfile(2) between two files of the simulated disk.  One call may move fewer bytes than asked for (the kernel
+        moves at most 0x7ffff000 per call and may stop earlier at any time): `sendfile_cap` is that bound for this run.
+        The write goes through the ordinary write path, so it is a pre-emption, fault and crash point."""
+        src, dst = self._fd(in_fd), self._fd(out_fd)
+        if not src.readable or not dst.writable:
+            raise _err(errno.EBADF)
+        if count < 0:
+            raise _err(errno.EINVAL)
+        # (a large file is still moved in at most ~16 calls: the bound scales with the file)
+        n = count if self.sendfile_cap is None else min(count, max(self.sendfile_cap, len(src.inode.data) // 16))
+        self.hook("read", src.path, n)
+        start = src.pos if offset is None else offset
+        chunk = bytes(src.inode.data[start:start + n])
+        if not chunk:
+            return 0
+        self._touch_atime(src.inode)
+        done = self._write(dst, chunk)
+        if done == 0:
+            # an injected short write that accepted nothing: sendfile() returns 0 only at end of file, the call goes on
+            done = self._write(dst, chunk)
+        if offset is None:
+            src.pos += done
+        self.sendfile_calls += 1
+        return done
 
     def os_fstat(self, fd):
         return self._stat_result(self._fd(fd).inode)
